@@ -1087,6 +1087,8 @@ def run_must_reject(ctx):
       cases += [
           ("PWLCalibration", "unsorted-keypoints", dict(input_keypoints=unsorted)),
           ("PWLCalibration", "repeated-keypoint", dict(input_keypoints=dup)),
+          ("PWLCalibration", "repeated-keypoint-learned", dict(input_keypoints=dup, input_keypoints_type="learned_interior")),
+          ("PWLCalibration", "unsorted-keypoints-learned", dict(input_keypoints=unsorted, input_keypoints_type="learned_interior")),
           ("PWLCalibration", "cyclic+monotone", dict(input_keypoints=list(kps), is_cyclic=True,
                                                      monotonicity=rng.choice([1, -1, "increasing", "decreasing"]))),
           ("PWLCalibration", "min>max", dict(input_keypoints=list(kps), output_min=2.0, output_max=1.0)),
